@@ -38,6 +38,10 @@ claimed = {
          "Decides the safety half of sync: only the sync store task extends the chain and only after SanityCheckNewHeight succeeded for that very block with the commitments that check returned; only sync (and the offline tool) reverts; every stored block is announced exactly there, in storage order, from the single producer; a local block at or below the last possibly valid height is reverted only after comparison with the source; a pending reorg range is extended, never overwritten; succession is checked before any write. Convergence, liveness and schedule-dependent reorg ranges are not decided.",
          "trusted: go/types, go/ssa, VTA; sync's goroutine structure (stream callbacks run in order) is taken from the code's comments, not analysed",
          "DESIGN.md §5 C06"),
+ "C02": ("labelled forward dataflow (struct-field labels → hash sinks) over SSA def-use incl. closures, per version arm; must-hold DNF at dispatch and success exits; exhaustiveness of the transaction type switch; dominance of the succession check",
+         "Decides that every committed field participates in its hash (a frozen, protocol-derived table of ~150 field×formula obligations over transaction, block, receipt, event, state-diff and cairo0 class hashes), that formulas are dispatched under the protocol's version thresholds, that the success exits of SanityCheckNewHeight/VerifyBlockHash/VerifyTransactions/VerifyClassHashes are reachable only with every comparison passed, that TransactionHash covers every transaction type, and that Store checks succession before any write. It does not decide that the computed hashes equal the network's, nor collision resistance.",
+         "trusted: go/types, go/ssa; flow is over-approximate (a call propagates taint from any argument to its result and pointer arguments), which can only hide a missing field, never invent a violation; the field table is hand-confirmed against the code and the Starknet hash specifications",
+         "DESIGN.md §5 C02"),
 }
 pending = {}  # id -> reason (properties not claimed)
 props = [json.loads(l) for l in open(os.path.join(V, "properties.jsonl"))]
